@@ -76,7 +76,18 @@ func c15Borderline(r *mon.Rng) *model.Schema {
 		}
 		return model.Arr()
 	}
-	switch r.Intn(4) {
+	switch r.Intn(5) {
+	case 4:
+		// string values spelled with escape sequences JSON does not have: should Check accept
+		// one, Example (which copies literals) still owes well-formed JSON
+		lit := &model.Node{Kind: model.KString, KeyPos: -1, Lit: mon.Pick(r, []string{`"it\'s"`, `"a\xb"`, `"\a"`, `"\u12"`, `"x\ "`, `"\'"`, `"q\0"`})}
+		switch r.Intn(3) {
+		case 0:
+			return &model.Schema{Root: lit}
+		case 1:
+			return &model.Schema{Root: model.Obj(model.P("id", model.Int("1")), model.P("name", lit))}
+		}
+		return &model.Schema{Root: model.Arr(model.Int("1"), lit)}
 	case 0:
 		// key type naming itself before (or after) a real string alternative
 		refs := []string{"@key", "@word"}
